@@ -5,6 +5,7 @@
 
 package unbounded
 
+//@ -- needs-package ./rtpconn (the instantiation Channel[any] named below is created by its user)
 //@ -- the queue is only touched with ch.mu held (C13)
 //@ guarded Channel.mu: queue
 //@
